@@ -13,6 +13,7 @@ import (
 	"time"
 
 	"github.com/deepteams/webp/mux"
+	"github.com/deepteams/webp/internal/verifhook"
 )
 
 // Animation holds all frames and parameters of an animated WebP image.
@@ -207,6 +208,7 @@ func (a *Animation) DecodeFramesParallel() error {
 	}
 
 	numWorkers := runtime.GOMAXPROCS(0)
+	numWorkers = verifhook.Workers("animation.DecodeFramesParallel", numWorkers)
 	if numWorkers > len(toDecodeIdx) {
 		numWorkers = len(toDecodeIdx)
 	}
